@@ -61,6 +61,20 @@ class Cx:
     def pyint(self, name, lo=None, hi=None):
         return self.int(name, lo, hi, S.pyint)
 
+    def fp(self, name, lo=None, hi=None):
+        """binary64 input (FP-mode), finite, optionally bounded."""
+        from . import fp as F
+
+        v = z3.FP(name, F.FMT)
+        self._reg(name, "fp", v)
+        self.named[name] = v
+        self.ex.assume(z3.And(z3.Not(z3.fpIsNaN(v)), z3.Not(z3.fpIsInf(v)), z3.Not(z3.fpIsSubnormal(v))))
+        if lo is not None:
+            self.ex.assume(z3.fpGEQ(v, z3.FPVal(float(lo), F.FMT)))
+        if hi is not None:
+            self.ex.assume(z3.fpLEQ(v, z3.FPVal(float(hi), F.FMT)))
+        return F.mk(v)
+
     def bool(self, name):
         v = z3.Bool(name)
         self._reg(name, "bool", v)
@@ -211,6 +225,13 @@ def eval_leaf(model, x):
         if x in (math.inf, -math.inf):
             return ("inf" if x > 0 else "-inf"), True
         return x, True
+    if getattr(type(x), "_fp", False):
+        from . import fp as F
+
+        f = F.to_float(model.eval(x.v, model_completion=True))
+        if f is None:
+            return "<fp?>", False
+        return eval_leaf(model, f)
     if isinstance(x, S.generic):
         if not x.sym:
             if x.nan is not None and z3.is_true(model.eval(x.nan, model_completion=True)):
@@ -257,6 +278,13 @@ def _round_inputs(cx, model):
             continue
         if nanvar is not None:
             pins.append(z3.Not(nanvar))
+        if kind == "fp":
+            from . import fp as F
+
+            f = F.to_float(model.eval(var, model_completion=True))
+            vals[name] = f
+            pins.append(z3.fpEQ(var, z3.FPVal(f, F.FMT)) if f != 0 else var == z3.FPVal(f, F.FMT))
+            continue
         if kind == "bool":
             b = z3.is_true(model.eval(var, model_completion=True))
             vals[name] = b
@@ -274,10 +302,15 @@ def _round_inputs(cx, model):
     return vals, pins
 
 
-def concretise(ex, cx, extra=()):
+def concretise(ex, cx, extra=(), hints=()):
     """Find a model of the current path (plus `extra`) whose inputs are exactly float-representable.
 
     Returns (inputs_json, model, exact: bool) or None if `extra` is infeasible."""
+    extra = list(extra)
+    for h in hints:
+        if ex.check(*extra, *h) == "sat":
+            extra = extra + list(h)
+            break
     r = ex.check(*extra)
     if r != "sat":
         return None
@@ -358,7 +391,11 @@ def run_instance(harness, name, params, *, known=(), opts=None, pinned=None):
                 if nm not in pinned:
                     continue
                 v = pinned[nm]
-                if kind == "bool":
+                if kind == "fp":
+                    from . import fp as F
+
+                    ex.assume(var == z3.FPVal(float(v), F.FMT))
+                elif kind == "bool":
                     ex.assume(var if v else z3.Not(var))
                 elif v == "nan":
                     ex.assume(nanvar)
@@ -384,6 +421,7 @@ def run_instance(harness, name, params, *, known=(), opts=None, pinned=None):
         outcome = "raised:" + obs["raised"].name if isinstance(obs, dict) and isinstance(obs.get("raised"), Raised) else "result"
         res["outcomes"][outcome] = res["outcomes"].get(outcome, 0) + 1
         obligations = [(lab, f) for lab, f in harness.oracle(cx, params, x, obs)]
+        hints = harness.witness_hints(cx, params, x) or ()
         terms = []
         for lab, f in obligations:
             if isinstance(f, S.generic):
@@ -420,7 +458,7 @@ def run_instance(harness, name, params, *, known=(), opts=None, pinned=None):
                     res["inconclusive"].append(f"solver unknown outside known region for {lab}")
                     continue
                 extra += [z3.Not(g) for g in regs]
-            got = concretise(ex, cx, extra)
+            got = concretise(ex, cx, extra, hints)
             if got is None:
                 res["inconclusive"].append(f"counterexample vanished for {lab}")
                 continue
@@ -434,7 +472,7 @@ def run_instance(harness, name, params, *, known=(), opts=None, pinned=None):
                                           "tb": tb, "obligation": str(z3.simplify(f))[:400] if False else None})
         # witness for cross-validation against the real library
         if len(res["witnesses"]) < max_witness:
-            got = concretise(ex, cx)
+            got = concretise(ex, cx, (), hints)
             if got is not None:
                 vals, model, exact = got
                 exp, uf_free = eval_leaf(model, obs)
